@@ -661,6 +661,10 @@ REFINED = [
     "word's leading zeros never underflows because popcount <= bit length) = TRepr.countZeros (gen_count_zeros_large)",
     "the driver's evaluation of the specification for huge usize arguments (fastSpecShr, fastSpecBit, fastDivPow2, fastModPow2, "
     "fastClearBit) = the specification, all arguments",
+    # round 7
+    "<IBig as BitTest>::bit_len as REGENERATED text (Gen/IntBits.IBig_bit_len: `self.as_sign_repr().1.bit_len()`) = bit length of |x| "
+    "(sign ignored), every bit at a position >= bit_len is the sign bit, the bit below is its complement except at x = -2^(L-1); "
+    "composed with the executed magnitude model = the driver's `i.bitlen` output (Props/C09BitLen.lean)",
 ]
 # empty: every clause has its full theorem about the executed model, and the three pieces round 5 listed as "hand-mirrored only" (Tie A note:
 # next_power_of_two_large, Repr::ones heap arm, the `match (self, rhs)` operator dispatch) are regenerated + proved since round 6
@@ -746,7 +750,9 @@ THEOREMS = ["Dashu.Props.C09." + n for n in [
     "Dashu.Props.GenIntBits." + n for n in ["gen_ibig_bit", "gen_ibig_trailing_zeros", "gen_ibig_trailing_ones", "gen_ibig_not",
                                             "gen_ibig_not_bits", "specK_meets", "modelK_meets", "model_ibig_bit",
                                             "model_ibig_trailing"]] + [
-    "Dashu.Props.GenShiftDispatch." + n for n in ["gen_shl_dispatch", "gen_shr_dispatch"]]
+    "Dashu.Props.GenShiftDispatch." + n for n in ["gen_shl_dispatch", "gen_shr_dispatch"]] + [
+    "Dashu.Props.C09BitLen." + n for n in ["gen_ibig_bit_len", "sign_bits_above", "top_bit_below", "gen_ibig_bit_len_sign_bits",
+                                           "specK_meets_bit_len", "modelK_meets_bit_len", "model_ibig_bit_len"]]
 
 # Tie A: the IBig bit-operator sign tables are regenerated from integer/src/bits.rs on every run
 # (lean/Dashu/Gen/Glue.lean) and proved equal to the same specification as the hand model's tables
@@ -824,6 +830,12 @@ GEN_AUDIT += ["Dashu.Audit.GenIntBits"]
 # impls Shl<usize> / Shr<usize> for TypedRepr / TypedReprRef (zero arm, callee per operand kind, owned vs borrowed) = TRepr.shl / TRepr.shr
 GEN_PROPS += ["Dashu.Props.GenShiftDispatch"]
 GEN_AUDIT += ["Dashu.Audit.GenShiftDispatch"]
+# Tie A, typed translator (round 7): `<IBig as BitTest>::bit_len` (Gen/IntBits.IBig_bit_len, the one regenerated definition of that area without a
+# theorem in round 6) = bit length of |x| for every record meeting bit_len's specification; two's-complement reading (all bits from bit_len on are the
+# sign bit; the bit below is its complement except at x = -2^(L-1)); link: the executed magnitude model meets it and the composition is what the driver
+# prints for `i.bitlen`
+GEN_PROPS += ["Dashu.Props.C09BitLen"]
+GEN_AUDIT += ["Dashu.Audit.C09BitLen"]
 
 LEVEL_TEXT = ("Machine-checked Lean 4 theorems, for every word size and operand length, that the sign-case tables of & | ^ ! "
               "(also as regenerated from integer/src/bits.rs on every run) "
@@ -853,6 +865,8 @@ LEVEL_TEXT = ("Machine-checked Lean 4 theorems, for every word size and operand 
               "(trailing_zeros, trailing_ones, BitTest::bit with its trailing-zeros trick, Not for IBig/&IBig) through the typed translator over a "
               "record of the magnitude-level methods — proved to compute Int.testBit / the 2-adic valuations / -x-1 for every record meeting the "
               "methods' specification, which the executed magnitude model is proved to meet (modelK_meets). "
+              "Round 7: IBig::bit_len, the last regenerated sign-level function without a theorem, = bit length of |x| with its two's-complement "
+              "reading (sign bits from bit_len on) and the link to the executed model (Props/C09BitLen). "
               "Shift counts / bit positions up to usize::MAX are driven through every operation that is cheap there, and through the "
               "allocating ones (<<, set_bit, ones) in the two classes that are cheap (zero operand; request above Buffer::MAX_CAPACITY "
               "-> AllocTooMuch). 571 listed code arms (arm(case)) are all reached by both tiers.")
